@@ -34,6 +34,9 @@ static Fields gen(Tape &t) {
     default: { int n = t.range(1, 4); f.seti("n", n); for (int i = 0; i < n; i++) { f.set("k." + std::to_string(i), t.coin() ? "key" : "a b"); if (t.coin()) f.set("v." + std::to_string(i), t.coin() ? "v\n" : ""); } }
   }
   f.seti("maskplans", t.below(1u << 16));
+  // the manager under test: a complete recording manager, or (one case in four) a manager completed by
+  // uriCompleteMemoryManager from a malloc/free-only recording backend (emulated calloc / realloc / reallocarray)
+  f.seti("completed", t.chance(3, 4) ? 0 : 1);
   return f;
 }
 
@@ -55,6 +58,13 @@ template <class A> static Run<A> run_once(const Fields &f, const Plan &plan) {
   int op = (int)f.geti("op");
   LedgerMM mm;      // the manager under test
   LedgerMM setup;   // builds read-only operands; never fails
+  UriMemoryManager completed;
+  UriMemoryManager *M = &mm.mm;
+  if (f.geti("completed")) {
+    mm.mm.calloc = nullptr; mm.mm.realloc = nullptr; mm.mm.reallocarray = nullptr;
+    if (uriCompleteMemoryManager(&completed, &mm.mm) != 0) { r.err = "uriCompleteMemoryManager failed"; return r; }
+    M = &completed;
+  }
   auto arm = [&]() {
     mm.reset_counts(); mm.reset_plan();
     if (plan.mode == 1) mm.fail_at = plan.k; else if (plan.mode == 2) mm.fail_from = plan.k; else if (plan.mode == 3) mm.fail_mask = plan.mask;
@@ -74,10 +84,10 @@ template <class A> static Run<A> run_once(const Fields &f, const Plan &plan) {
     memset(&u, 0xA5, sizeof u);
     const Ch *ep;
     arm();
-    r.rc = A::ParseSingleUriExMm(&u, buf.get(), buf.get() + n, &ep, &mm.mm);
+    r.rc = A::ParseSingleUriExMm(&u, buf.get(), buf.get() + n, &ep, M);
     disarm();
     if (r.rc == 0) r.result = text_of(u);
-    A::FreeUriMembersMm(&u, &mm.mm);
+    A::FreeUriMembersMm(&u, M);
     ledger_ok("parse");
     return r;
   }
@@ -87,11 +97,11 @@ template <class A> static Run<A> run_once(const Fields &f, const Plan &plan) {
     typename A::QL *ql = nullptr;
     int cnt = -1;
     arm();
-    r.rc = A::DissectQueryMallocExMm(&ql, &cnt, buf.get(), buf.get() + n, f.geti("p2s") != 0, (UriBreakConversion)f.geti("bc"), &mm.mm);
+    r.rc = A::DissectQueryMallocExMm(&ql, &cnt, buf.get(), buf.get() + n, f.geti("p2s") != 0, (UriBreakConversion)f.geti("bc"), M);
     disarm();
     if (r.rc == 0) {
       for (auto *w = ql; w; w = w->next) { size_t l = 0; while (w->key[l]) l++; r.result += narrow<Ch>(w->key, w->key + l) + (w->value ? "=" : "") + "&"; }
-      A::FreeQueryListMm(ql, &mm.mm);
+      A::FreeQueryListMm(ql, M);
     }
     // on failure nothing is to be cleaned up by the caller
     ledger_ok("dissect");
@@ -111,10 +121,10 @@ template <class A> static Run<A> run_once(const Fields &f, const Plan &plan) {
     std::vector<char> frozen((const char *)nodes.data(), (const char *)nodes.data() + n * sizeof nodes[0]);
     Ch *out = nullptr;
     arm();
-    r.rc = A::ComposeQueryMallocExMm(&out, nodes.data(), URI_TRUE, URI_TRUE, &mm.mm);
+    r.rc = A::ComposeQueryMallocExMm(&out, nodes.data(), URI_TRUE, URI_TRUE, M);
     disarm();
     if (memcmp(frozen.data(), nodes.data(), frozen.size()) != 0) r.err = "compose: the read-only query list was modified";
-    if (r.rc == 0) { size_t l = 0; while (out[l]) l++; r.result = narrow<Ch>(out, out + l); mm.mm.free(&mm.mm, out); }
+    if (r.rc == 0) { size_t l = 0; while (out[l]) l++; r.result = narrow<Ch>(out, out + l); M->free(M, out); }
     if (r.err.empty()) ledger_ok("compose");
     return r;
   }
@@ -124,15 +134,15 @@ template <class A> static Run<A> run_once(const Fields &f, const Plan &plan) {
   const Ch *ep;
   if (op == OP_NORMALIZE || op == OP_MAKEOWNER) {
     typename A::Uri u;
-    if (A::ParseSingleUriExMm(&u, b1.get(), b1.get() + n1, &ep, &mm.mm) != 0) { r.rc = -99; A::FreeUriMembersMm(&u, &mm.mm); return r; }
-    if (op == OP_NORMALIZE && f.geti("owned")) { if (A::MakeOwnerMm(&u, &mm.mm) != 0) { r.err = "setup: make-owner failed"; return r; } }
+    if (A::ParseSingleUriExMm(&u, b1.get(), b1.get() + n1, &ep, M) != 0) { r.rc = -99; A::FreeUriMembersMm(&u, M); return r; }
+    if (op == OP_NORMALIZE && f.geti("owned")) { if (A::MakeOwnerMm(&u, M) != 0) { r.err = "setup: make-owner failed"; return r; } }
     std::vector<Ch> srcCopy(b1.get(), b1.get() + n1);
     arm();
-    r.rc = op == OP_NORMALIZE ? A::NormalizeSyntaxExMm(&u, (unsigned)f.geti("mask"), &mm.mm) : A::MakeOwnerMm(&u, &mm.mm);
+    r.rc = op == OP_NORMALIZE ? A::NormalizeSyntaxExMm(&u, (unsigned)f.geti("mask"), M) : A::MakeOwnerMm(&u, M);
     disarm();
     if (n1 && memcmp(srcCopy.data(), b1.get(), n1 * sizeof(Ch)) != 0) r.err = std::string(opname(op)) + ": the caller's input text was modified";
     if (r.rc == 0) r.result = text_of(u);
-    A::FreeUriMembersMm(&u, &mm.mm);
+    A::FreeUriMembersMm(&u, M);
     if (r.err.empty()) ledger_ok(opname(op));
     return r;
   }
@@ -149,19 +159,19 @@ template <class A> static Run<A> run_once(const Fields &f, const Plan &plan) {
   memset(&d, 0xA5, sizeof d);
   if (op == OP_NORM_RESOLVED) {
     // a resolved object borrows from two texts and from library constants; normalise it under faults
-    if (A::AddBaseUriExMm(&d, &x, &y, (UriResolutionOptions)f.geti("opt"), &mm.mm) != 0) { r.rc = -99; A::FreeUriMembersMm(&d, &mm.mm); A::FreeUriMembersMm(&x, &setup.mm); A::FreeUriMembersMm(&y, &setup.mm); return r; }
+    if (A::AddBaseUriExMm(&d, &x, &y, (UriResolutionOptions)f.geti("opt"), M) != 0) { r.rc = -99; A::FreeUriMembersMm(&d, M); A::FreeUriMembersMm(&x, &setup.mm); A::FreeUriMembersMm(&y, &setup.mm); return r; }
     arm();
-    r.rc = A::NormalizeSyntaxExMm(&d, (unsigned)f.geti("mask"), &mm.mm);
+    r.rc = A::NormalizeSyntaxExMm(&d, (unsigned)f.geti("mask"), M);
     disarm();
   } else {
     arm();
-    r.rc = op == OP_RESOLVE ? A::AddBaseUriExMm(&d, &x, &y, (UriResolutionOptions)f.geti("opt"), &mm.mm)
-                            : A::RemoveBaseUriMm(&d, &x, &y, f.geti("mode") ? URI_TRUE : URI_FALSE, &mm.mm);
+    r.rc = op == OP_RESOLVE ? A::AddBaseUriExMm(&d, &x, &y, (UriResolutionOptions)f.geti("opt"), M)
+                            : A::RemoveBaseUriMm(&d, &x, &y, f.geti("mode") ? URI_TRUE : URI_FALSE, M);
     disarm();
   }
   if (freeze<A>(x) != fx || freeze<A>(y) != fy) r.err = std::string(opname(op)) + ": a read-only operand was modified";
   if (r.rc == 0) r.result = text_of(d);
-  A::FreeUriMembersMm(&d, &mm.mm);
+  A::FreeUriMembersMm(&d, M);
   if (r.err.empty()) ledger_ok(opname(op));
   A::FreeUriMembersMm(&x, &setup.mm); A::FreeUriMembersMm(&y, &setup.mm);
   if (r.err.empty() && (setup.outstanding() || setup.bad_free)) r.err = "operand manager ledger unbalanced";
@@ -217,6 +227,7 @@ static Verdict check(const Fields &f) {
   S.hit("op=" + o);
   S.hit("n_requests[" + o + "]=" + (n == 0 ? "0" : n <= 2 ? "1-2" : n <= 5 ? "3-5" : n <= 10 ? "6-10" : n <= 20 ? "11-20" : ">20"));
   S.hit("fault_plans", plans);
+  S.hit(f.geti("completed") ? "manager=completed_from_malloc_free" : "manager=complete");
   if (n >= 2) S.nontrivial(f.text(), o + ": " + esc(f.get("text")) + (f.has("base") ? " | " + esc(f.get("base")) : "") + " (n=" + std::to_string(n) + ")");
   return Verdict::pass();
 }
